@@ -46,8 +46,9 @@ def get_interp(extra_modules):
     if _INTERP is None:
         from .interp import Interp
         _INTERP = Interp(prefixes=("Pyro5",), extra_modules=set(extra_modules))
-        from . import env
+        from . import env, regex
         env.install(_INTERP)
+        regex.install(_INTERP)
     else:
         _INTERP.extra_modules.update(extra_modules)
     return _INTERP
@@ -76,6 +77,7 @@ def run_one_path(spec, tier, prefix, seed, known_active, deadline_s=120.0, timeo
     """execute one path symbolically; returns PathResult (with .witness/.observations for validation)"""
     interp = get_interp([spec.module] + list(getattr(sys.modules[spec.module], "INTERPRET_MODULES", [])))
     interp.symdict_functions = set(getattr(sys.modules[spec.module], "SYMDICT_FUNCTIONS", []))
+    _install_stubs(interp, getattr(sys.modules[spec.module], "STUBS", []))
     eng = Engine(prefix=prefix, timeout_ms=timeout_ms, seed=seed)
     E.set_current(eng)
     S = SymCtx(eng, interp, known_active)
@@ -126,6 +128,55 @@ def run_one_path(spec, tier, prefix, seed, known_active, deadline_s=120.0, timeo
     return res
 
 
+_STUB_KEYS = []
+
+
+def _stub_key(owner, attr):
+    v = None
+    if isinstance(owner, type):
+        for k in owner.__mro__:
+            if attr in k.__dict__:
+                v = k.__dict__[attr]
+                break
+    else:
+        v = getattr(owner, attr)
+    if isinstance(v, (staticmethod, classmethod)):
+        v = v.__func__
+    return v
+
+
+def _install_stubs(interp, stubs):
+    """harness-declared replacements of environment functions (symbolic mode: 'always' models that interpret
+    the replacement)"""
+    global _STUB_KEYS
+    for k in _STUB_KEYS:
+        interp.always.pop(k, None)
+    _STUB_KEYS = []
+    for owner, attr, repl, modes in stubs:
+        if modes not in ("both", "symbolic"):
+            continue
+        key = _stub_key(owner, attr)
+
+        def mk(repl):
+            return lambda interp_, args, kwargs: interp_.call_value(repl, args, kwargs)
+        interp.always[key] = mk(repl)
+        _STUB_KEYS.append(key)
+
+
+class _NativeStubs:
+    def __init__(self, stubs):
+        from unittest import mock
+        self.patches = [mock.patch.object(owner, attr, repl) for owner, attr, repl, modes in stubs if modes in ("both", "native")]
+
+    def __enter__(self):
+        for p in self.patches:
+            p.__enter__()
+
+    def __exit__(self, *a):
+        for p in reversed(self.patches):
+            p.__exit__(None, None, None)
+
+
 def _safe_str(x):
     try:
         return str(x)[:500]
@@ -146,13 +197,16 @@ def run_native(spec, tier, witness):
     (spec.reset or default_reset)()
     B = spec.bounds[tier]
     cm = spec.native_patch(S) if spec.native_patch else None
+    stubs = _NativeStubs(getattr(sys.modules[spec.module], "STUBS", []))
     err = None
     try:
         if cm is not None:
             cm.__enter__()
+        stubs.__enter__()
         try:
             spec.fn(S, B)
         finally:
+            stubs.__exit__()
             if cm is not None:
                 cm.__exit__(None, None, None)
     except PathEnd:
